@@ -1068,6 +1068,11 @@ def eval_ext(ck, c, model, st, rng):
         return False
     snap = any(in_snap_zone(v) for v in (a, b))
     st.add("ext", c["family"], "snap_zone" if snap else "")
+    if snap and c["family"] == "short_near_pole":
+        # the generator aims at end points 2.2e-4 rad and more from a pole; lattice rounding can put one just inside the
+        # library's documented pole snap zone, where the answer is the snapped pole by design: not this family's subject
+        st.add("ext", "out_of_scope")
+        return False
     info = {"fn": "extreme_gca_latitude", "family": c["family"], "arc": pole_arc(a, b) or "general", "snap_zone": snap}
     (ra, rb), tr = zrot_vecs(rng, (a, b), c.get("zrot"))
     for j, kind in enumerate(("max", "min")):
